@@ -1,0 +1,8 @@
+//go:build verif
+
+package bloomsearch
+
+// Exported wrappers for the merge verification harness (family G). No logic.
+
+// VerifBlockMergeKey exposes blockMergeKey.
+func VerifBlockMergeKey(block *DataBlockMetadata) string { return blockMergeKey(block) }
